@@ -1,47 +1,625 @@
-use anda_db_schema::*;
-use std::collections::BTreeMap;
-use std::sync::Arc;
+//! C13 harness: runs anda_db_schema's real write / encode / decode / read path on generated
+//! (type, value) pairs, single mutations, schema upgrade chains and float bit patterns.
+mod battery;
+mod genv;
+mod term;
 
-fn schema_of(t: FieldType) -> Arc<Schema> {
+use anda_db_schema::*;
+use genv::*;
+use h_common::*;
+use serde_json::{Value, json};
+use std::collections::{BTreeMap, BTreeSet};
+use std::io::Write;
+use std::panic::{AssertUnwindSafe, catch_unwind};
+use std::sync::Arc;
+use term::*;
+
+pub fn schema_of(t: &FieldType) -> Arc<Schema> {
     let mut b = Schema::builder();
-    b.add_field(FieldEntry::new("f".into(), t).unwrap()).unwrap();
+    b.add_field(FieldEntry::new("f".into(), t.clone()).unwrap()).unwrap();
     Arc::new(b.build().unwrap())
 }
-fn try_rt(t: FieldType, v: FieldValue) {
-    let s = schema_of(t.clone());
+
+/// encode a document the way the collection stores it, decode schema-less
+pub fn store_and_decode(d: &Document) -> Result<DocumentOwned, String> {
+    let bytes = cbor2::to_vec(d).map_err(|e| format!("encode: {e}"))?;
+    cbor2::from_reader::<DocumentOwned, _>(&bytes[..]).map_err(|e| format!("decode: {e}"))
+}
+
+pub struct WriteRead {
+    pub stored: Option<FieldValue>,          // value kept by set_field (None: rejected)
+    pub raw: Option<FieldValue>,             // schema-less decode of the stored bytes (None: not stored / encode failed)
+    pub read: Option<FieldValue>,            // Document::try_from_doc's value (None: failed)
+    pub read_err: String,
+    pub reencode_same: bool,                 // re-encoding the read document gives the same bytes
+}
+
+pub fn write_read(t: &FieldType, v: &FieldValue) -> WriteRead {
+    let s = schema_of(t);
     let mut d = Document::new(s.clone());
     d.set_id(1);
-    match d.set_field("f", v.clone()) {
-        Err(e) => { println!("{t:?} <- {v:?}: set_field REJECT {e}"); return; }
-        Ok(_) => {}
-    }
-    let stored = d.get_field("f").cloned();
-    let bytes = match cbor2::to_vec(&d) { Ok(b) => b, Err(e) => { println!("{t:?} <- {v:?}: SER FAIL {e}"); return; } };
-    let owned: DocumentOwned = cbor2::from_reader(&bytes[..]).unwrap();
-    let raw = owned.fields.get(&1).cloned();
+    let mut r = WriteRead { stored: None, raw: None, read: None, read_err: String::new(), reencode_same: true };
+    if d.set_field("f", v.clone()).is_err() { return r; }
+    r.stored = d.get_field("f").cloned();
+    let bytes = match cbor2::to_vec(&d) { Ok(b) => b, Err(e) => { r.read_err = format!("encode: {e}"); return r; } };
+    let owned: DocumentOwned = match cbor2::from_reader(&bytes[..]) { Ok(o) => o, Err(e) => { r.read_err = format!("decode: {e}"); return r; } };
+    r.raw = owned.fields.get(&1).cloned();
     match Document::try_from_doc(s, owned) {
-        Ok(d2) => println!("{t:?} <- {v:?}: stored {stored:?} raw {raw:?} read {:?}", d2.get_field("f")),
-        Err(e) => println!("{t:?} <- {v:?}: stored {stored:?} raw {raw:?} READ FAIL {e}"),
+        Ok(d2) => {
+            r.read = d2.get_field("f").cloned();
+            r.reencode_same = cbor2::to_vec(&d2).map(|b| b == bytes).unwrap_or(false);
+        }
+        Err(e) => r.read_err = format!("{e}"),
+    }
+    r
+}
+
+/// typed path: the value arrives as CBOR inside a name-keyed map (what Document::try_from sees)
+pub fn typed_write(t: &FieldType, v: &FieldValue) -> Option<Document> {
+    let s = schema_of(t);
+    let c: Cbor = v.clone().into();
+    let doc = Cbor::Map(vec![(Cbor::Text("_id".into()), Cbor::Integer(1.into())), (Cbor::Text("f".into()), c)]);
+    Document::try_from(s, &doc).ok()
+}
+
+fn model_row(out: &mut impl Write, stream: &str, case: Value, obs: Value) {
+    writeln!(out, "{}", json!({"kind": "model", "stream": stream, "case": case, "obs": obs})).unwrap();
+}
+
+#[derive(Default)]
+struct Stats {
+    evaluations: u64,
+    failures: Vec<Value>,
+    dist: BTreeMap<String, u64>,
+}
+impl Stats {
+    fn bump(&mut self, k: &str) { *self.dist.entry(k.to_string()).or_insert(0) += 1; }
+    fn fail(&mut self, class: &str, what: String, t: &FieldType, v: &FieldValue, extra: Value) {
+        if self.failures.len() < 40 {
+            self.failures.push(json!({"class": class, "what": what, "type": format!("{t:?}"), "value": format!("{v:?}"),
+                                      "type_term": ft_term(t), "value_term": fv_term(v), "detail": extra}));
+        } else {
+            self.bump("failures_not_listed");
+        }
     }
 }
-fn main() {
-    let z = bf16::from_f32(1.0);
-    try_rt(FieldType::Array(vec![]), FieldValue::Array(vec![FieldValue::Vector(vec![z; 5000])]));
-    try_rt(FieldType::Array(vec![]), FieldValue::Array(vec![FieldValue::I64(5), FieldValue::F32(1.5)]));
-    try_rt(FieldType::Json, FieldValue::Bytes(vec![1,2]));
-    try_rt(FieldType::Json, FieldValue::Map(BTreeMap::from([(FieldKey::I64(5), FieldValue::U64(1))])));
-    try_rt(FieldType::Json, FieldValue::Map(BTreeMap::from([(FieldKey::Bytes(b"ab".to_vec()), FieldValue::U64(1))])));
-    try_rt(FieldType::Json, FieldValue::F64(f64::INFINITY));
-    try_rt(FieldType::Json, FieldValue::Vector(vec![z; 3]));
-    try_rt(FieldType::Json, FieldValue::Json(serde_json::Value::Null));
-    try_rt(FieldType::Option(Box::new(FieldType::Json)), FieldValue::Json(serde_json::Value::Null));
-    try_rt(FieldType::Json, FieldValue::Null);
-    try_rt(FieldType::Map(BTreeMap::new()), FieldValue::Map(BTreeMap::from([(FieldKey::I64(5), FieldValue::Vector(vec![z; 5000]))])));
-    // depth
-    let mut v = FieldValue::Vector(vec![z; 2]);
-    for _ in 0..64 { v = FieldValue::Array(vec![v]); }
-    try_rt(FieldType::Array(vec![]), v);
-    try_rt(FieldType::Json, FieldValue::Json(serde_json::json!({"a":[1,-2,1.5,-0.0,18446744073709551615u64,null,"b64:AQID"]})));
-    try_rt(FieldType::F32, FieldValue::F32(-0.0));
-    try_rt(FieldType::F32, FieldValue::F64(2.71));
+
+/// does v carry a Vector at a position for which t declares no element type (Array([]), Map({}))?
+fn vector_in_untyped(t: &FieldType, v: &FieldValue, untyped: bool) -> bool {
+    match v {
+        FieldValue::Vector(_) => untyped,
+        FieldValue::Array(vs) => match t {
+            _ if untyped => vs.iter().any(|x| vector_in_untyped(t, x, true)),
+            FieldType::Array(ts) if ts.is_empty() => vs.iter().any(|x| vector_in_untyped(t, x, true)),
+            FieldType::Array(ts) if ts.len() == 1 => vs.iter().any(|x| vector_in_untyped(&ts[0], x, false)),
+            FieldType::Array(ts) => ts.iter().zip(vs).any(|(t, x)| vector_in_untyped(t, x, false)),
+            FieldType::Option(t) => vector_in_untyped(t, v, false),
+            _ => false,
+        },
+        FieldValue::Map(m) => match t {
+            _ if untyped => m.values().any(|x| vector_in_untyped(t, x, true)),
+            FieldType::Map(tm) if tm.is_empty() => m.values().any(|x| vector_in_untyped(t, x, true)),
+            FieldType::Map(tm) => match as_wildcard_map(tm) {
+                Some((_, ft)) => m.values().any(|x| vector_in_untyped(ft, x, false)),
+                None => m.iter().any(|(k, x)| tm.get(k).map(|ft| vector_in_untyped(ft, x, false)).unwrap_or(false)),
+            },
+            FieldType::Option(t) => vector_in_untyped(t, v, false),
+            _ => false,
+        },
+        _ => false,
+    }
 }
+
+fn type_shape(t: &FieldType) -> &'static str {
+    match t {
+        FieldType::Array(ts) => match ts.len() { 0 => "array-any", 1 => "array-homogeneous", _ => "array-tuple" },
+        FieldType::Map(m) => if m.is_empty() { "map-any" } else if as_wildcard_map(m).is_some() { "map-wildcard" } else { "map-keyed" },
+        FieldType::Option(_) => "option", FieldType::Json => "json", FieldType::Vector => "vector", _ => "scalar",
+    }
+}
+fn type_depth(t: &FieldType) -> usize {
+    match t {
+        FieldType::Array(ts) => 1 + ts.iter().map(type_depth).max().unwrap_or(0),
+        FieldType::Map(m) => 1 + m.values().map(type_depth).max().unwrap_or(0),
+        FieldType::Option(t) => 1 + type_depth(t),
+        _ => 0,
+    }
+}
+
+/// One (type, value) pair through the field-by-field path: model row + direct oracle.
+/// `canonical`: the generator built v in the declared variant, so the read value must equal v itself.
+/// `must_reject`: v violates t by construction.
+fn run_pair(out: &mut impl Write, st: &mut Stats, t: &FieldType, v: &FieldValue, canonical: bool, must_reject: Option<&Mutation>, model: bool) {
+    st.evaluations += 1;
+    let valid = t.validate(v).is_ok();
+    let mut n = v.clone();
+    t.normalize(&mut n);
+    let mut p = v.clone();
+    t.prune_undeclared(&mut p);
+    let wr = write_read(t, v);
+    // ---- direct oracle (property read on the implementation, no model involved)
+    if let Some(m) = must_reject {
+        if valid { st.fail("invalid-accepted", format!("FieldType::validate accepts a {} violation", m.class), t, v, json!({"path": "validate"})); }
+        if wr.stored.is_some() { st.fail("invalid-accepted", format!("Document::set_field accepts a {} violation", m.class), t, v, json!({"path": "set_field"})); }
+        if m.cbor_invalid && typed_write(t, v).is_some() {
+            st.fail("invalid-accepted", format!("Document::try_from accepts a {} violation", m.class), t, v, json!({"path": "try_from"}));
+        }
+    }
+    if let Some(s) = &wr.stored {
+        st.bump("accepted");
+        if wr.raw.is_none() {
+            // refused at encode time (NaN): an error at write, not an accepted document
+            st.bump("accepted_by_set_field_but_unencodable");
+        } else {
+            match &wr.read {
+                None => {
+                    // known class: a Vector is budgeted as one leaf when written but reads back as an array at
+                    // positions without a declared element type, where nothing folds it back before validation
+                    let class = if vector_in_untyped(t, s, false) { "untyped-vector-unreadable" } else { "accepted-then-unreadable" };
+                    st.fail(class, format!("accepted by set_field, stored, rejected on read: {}", wr.read_err), t, v, json!({"stored": format!("{s:?}").chars().take(300).collect::<String>()}))
+                }
+                Some(r) => {
+                    if !wr.reencode_same {
+                        st.fail("stored-form-unstable", "re-encoding the document read back gives different bytes".into(), t, v, json!({"read": format!("{r:?}")}));
+                    }
+                    if canonical && !(same(r, v) && same(s, v)) {
+                        st.fail("field-changed", "a value written in the declared variant reads back different".into(), t, v,
+                                json!({"stored": format!("{s:?}"), "read": format!("{r:?}")}));
+                    }
+                    if t.validate(r).is_err() {
+                        st.fail("accepted-then-unreadable", "value read back does not validate".into(), t, v, json!({"read": format!("{r:?}")}));
+                    }
+                }
+            }
+        }
+    } else if canonical {
+        st.fail("valid-rejected", "a canonical valid value is rejected by set_field".into(), t, v, json!({}));
+    }
+    if canonical {
+        // typed path: arrives as CBOR, must be accepted and give the same value, and read back equal
+        match typed_write(t, v) {
+            None => st.fail("valid-rejected", "a canonical valid value is rejected by Document::try_from".into(), t, v, json!({})),
+            Some(d) => {
+                let e = d.get_field("f").cloned();
+                let absent_ok = e.is_none() && *v == FieldValue::Null;
+                if !absent_ok && !e.as_ref().map(|e| same(e, v)).unwrap_or(false) {
+                    st.fail("field-changed", "Document::try_from stores a different value than the one written".into(), t, v, json!({"extracted": format!("{e:?}")}));
+                }
+                match store_and_decode(&d).and_then(|o| Document::try_from_doc(schema_of(t), o).map_err(|e| format!("{e}"))) {
+                    Err(e) => st.fail("accepted-then-unreadable", format!("accepted by try_from, rejected on read: {e}"), t, v, json!({})),
+                    Ok(d2) => {
+                        let r = d2.get_field("f").cloned();
+                        if !absent_ok && !r.as_ref().map(|r| same(r, v)).unwrap_or(false) {
+                            st.fail("field-changed", "typed path: read back differs from written".into(), t, v, json!({"read": format!("{r:?}")}));
+                        }
+                        // back to the "typed value" (generic CBOR): same CBOR as the one written
+                        let back: Result<Cbor, _> = d2.try_into();
+                        let orig: Cbor = Cbor::Map(vec![(Cbor::Text("_id".into()), Cbor::Integer(1.into())), (Cbor::Text("f".into()), v.clone().into())]);
+                        if !absent_ok {
+                            match back {
+                                Ok(b) => if cbor2::to_vec(&b).ok() != cbor2::to_vec(&orig).ok() {
+                                    st.fail("typed-value-changed", "Document::try_into does not reproduce the written CBOR value".into(), t, v, json!({"back": format!("{b:?}")}));
+                                },
+                                Err(e) => st.fail("typed-value-changed", format!("Document::try_into fails: {e}"), t, v, json!({})),
+                            }
+                        }
+                    }
+                }
+            }
+        }
+    }
+    // ---- model row
+    if model && fv_term(v).to_string().len() > 200_000 {
+        // very large budget cases: compare the three verdicts only (the term is not repeated six times)
+        let case = tup(vec![ft_term(t), fv_term(v), float_table(&[v])]);
+        model_row(out, "wb", case, tup(vec![json!(valid), json!(wr.stored.is_some()), json!(wr.read.is_some())]));
+        return;
+    }
+    if model {
+        let mut all: Vec<&FieldValue> = vec![v, &n, &p];
+        if let Some(x) = &wr.stored { all.push(x); }
+        if let Some(x) = &wr.raw { all.push(x); }
+        if let Some(x) = &wr.read { all.push(x); }
+        let tab = float_table(&all);
+        let case = tup(vec![ft_term(t), fv_term(v), tab]);
+        let obs = tup(vec![json!(valid), fv_term(&n), fv_term(&p),
+                           opt_term(wr.stored.as_ref().map(fv_term)), opt_term(wr.raw.as_ref().map(fv_term)), opt_term(wr.read.as_ref().map(fv_term))]);
+        model_row(out, "wr", case, obs);
+        // typed path: the same value arriving as CBOR through Document::try_from
+        let tw = typed_write(t, v).and_then(|d| d.get_field("f").cloned());
+        let mut all2: Vec<&FieldValue> = vec![v];
+        if let Some(e) = &tw { all2.push(e); }
+        model_row(out, "tw", tup(vec![ft_term(t), fv_term(v), float_table(&all2)]), opt_term(tw.as_ref().map(fv_term)));
+        // extract path: what FieldType::extract builds from the value's CBOR must be canonical and valid
+        if let Ok(e) = t.extract(v.clone().into()) {
+            if e.validate_complexity().is_ok() {
+                let tab = float_table(&[&e]);
+                model_row(out, "ex", tup(vec![ft_term(t), fv_term(&e), tab]), json!(true));
+            }
+        }
+    }
+}
+
+fn nest_array(mut v: FieldValue, n: usize) -> FieldValue { for _ in 0..n { v = FieldValue::Array(vec![v]); } v }
+fn nest_json(mut v: Json, n: usize) -> Json { for _ in 0..n { v = Json::Array(vec![v]); } v }
+
+/// fixed battery around the complexity budget (exactly at / one over each bound)
+fn budget_battery(out: &mut impl Write, st: &mut Stats) {
+    let b = FieldValueBudget::default();
+    let any = FieldType::Array(vec![]);
+    let u = |n: usize| FieldValue::Array(vec![FieldValue::U64(1); n]);
+    let over = Mutation { value: FieldValue::Null, class: "over-budget", cbor_invalid: true };
+    let arr_u64 = FieldType::Array(vec![FieldType::U64]);
+    let arr2 = FieldType::Array(vec![FieldType::Array(vec![FieldType::U64])]);
+    let mut cases: Vec<(FieldType, FieldValue, bool)> = vec![
+        (arr_u64.clone(), u(b.max_array_len), true),
+        (arr_u64.clone(), u(b.max_array_len + 1), false),
+        (any.clone(), nest_array(FieldValue::U64(1), b.max_depth), true),
+        (any.clone(), nest_array(FieldValue::U64(1), b.max_depth + 1), false),
+        (FieldType::Json, FieldValue::Json(nest_json(Json::from(1u64), b.max_depth - 1)), true),
+        (FieldType::Json, FieldValue::Json(nest_json(Json::from(1u64), b.max_depth)), false),
+        (FieldType::Json, FieldValue::Json(Json::Array(vec![Json::Null; b.max_array_len + 1])), false),
+        (FieldType::Vector, FieldValue::Vector(vec![bf16::from_bits(0x3f80); b.max_array_len + 904]), true),
+    ];
+    // node count: 1 + k + k*m nodes
+    let k = 4usize;
+    let m_ok = (b.max_nodes - 1 - k) / k;
+    cases.push((arr2.clone(), FieldValue::Array(vec![u(m_ok); k]), true));
+    cases.push((arr2.clone(), FieldValue::Array(vec![u(m_ok + 1); k]), false));
+    let mut big = BTreeMap::new();
+    for i in 0..(b.max_map_entries as i64 + 1) { big.insert(FieldKey::I64(i), FieldValue::Bool(true)); }
+    let mut okm = big.clone();
+    okm.remove(&FieldKey::I64(0));
+    let wild = FieldType::Map(BTreeMap::from([(I64_WILDCARD_KEY.clone(), FieldType::Bool)]));
+    cases.push((wild.clone(), FieldValue::Map(okm), true));
+    cases.push((wild, FieldValue::Map(big), false));
+    for (t, v, ok) in cases {
+        st.bump(if ok { "budget_at_bound" } else { "budget_over_bound" });
+        run_pair(out, st, &t, &v, ok, if ok { None } else { Some(&over) }, true);
+    }
+    // Vector at a position with no declared element type: one leaf when written, an array when read
+    let z = bf16::from_bits(0x3f80);
+    let witnesses = vec![
+        (any.clone(), FieldValue::Array(vec![FieldValue::Vector(vec![z; b.max_array_len + 1])])),
+        (any.clone(), nest_array(FieldValue::Vector(vec![z; 2]), b.max_depth)),
+        (FieldType::Map(BTreeMap::new()), FieldValue::Map(BTreeMap::from([(FieldKey::I64(5), FieldValue::Vector(vec![z; b.max_array_len + 1]))]))),
+        (any.clone(), FieldValue::Array(vec![FieldValue::Vector(vec![z; b.max_array_len]); 5])),
+    ];
+    for (t, v) in witnesses {
+        st.bump("vector_in_untyped_position");
+        run_pair(out, st, &t, &v, false, None, true);
+    }
+}
+
+fn stream_pairs(out: &mut impl Write, st: &mut Stats, rng: &mut Rng, n_valid: usize, n_mut: usize, n_wild: usize, model_every: usize) {
+    let model_every = model_every.max(1);
+    let mut i = 0usize;
+    let mut types_seen: BTreeSet<String> = BTreeSet::new();
+    while i < n_valid {
+        let depth = 1 + (i % 4);
+        let t = gen_type(rng, depth);
+        types_seen.insert(format!("{t:?}"));
+        let v = gen_value(rng, &t);
+        st.bump(&format!("type_shape:{}", type_shape(&t)));
+        st.bump(&format!("type_depth:{}", type_depth(&t)));
+        st.bump("valid_pairs");
+        run_pair(out, st, &t, &v, true, None, i % model_every == 0);
+        // the schema-less read-back shape of the same value, written field by field
+        if let Ok(o) = { let s = schema_of(&t); let mut d = Document::new(s); d.set_id(1); d.set_field("f", v.clone()).map_err(|e| e.to_string()).and_then(|d| store_and_decode(d)) } {
+            if let Some(raw) = o.fields.get(&1) {
+                if !same(raw, &v) {
+                    st.bump("readback_shape_pairs");
+                    st.evaluations += 1;
+                    let wr = write_read(&t, raw);
+                    match &wr.stored {
+                        Some(s) if same(s, &v) => {}
+                        other => st.fail("field-changed", "writing the read-back shape of a canonical value does not restore it".into(), &t, raw, json!({"canonical": format!("{v:?}"), "stored": format!("{other:?}")})),
+                    }
+                    if i % model_every == 0 { run_pair(out, st, &t, raw, false, None, true); }
+                }
+            }
+        }
+        i += 1;
+    }
+    st.dist.insert("distinct_types".into(), types_seen.len() as u64);
+    let mut done = 0usize;
+    let mut tries = 0usize;
+    while done < n_mut && tries < n_mut * 20 {
+        tries += 1;
+        let t = gen_type(rng, 1 + (tries % 4));
+        let v = gen_value(rng, &t);
+        if let Some(m) = mutate(rng, &t, &v) {
+            st.bump(&format!("mutation:{}", m.class));
+            run_pair(out, st, &t, &m.value.clone(), false, Some(&m), done % model_every == 0);
+            done += 1;
+        }
+    }
+    for j in 0..n_wild {
+        let t = gen_type(rng, 1 + (j % 3));
+        let v = gen_wild(rng, 3);
+        st.bump("wild_pairs");
+        run_pair(out, st, &t, &v, false, None, j % model_every == 0);
+    }
+}
+
+// ------------------------------------------------------------------ float hypotheses
+fn f32_patterns(rng: &mut Rng, n: usize) -> Vec<u32> {
+    let mut v = vec![];
+    for e in [0u32, 1, 2, 126, 127, 128, 253, 254, 255] {
+        for m in [0u32, 1, 2, 0x3fffff, 0x400000, 0x400001, 0x7ffffe, 0x7fffff, 0x7f0000, 0x010000, 0x008000, 0x007fff] {
+            for s in [0u32, 1] { v.push((s << 31) | (e << 23) | m); }
+        }
+    }
+    // every bf16 pattern widened to f32
+    for b in 0..=0xffffu32 { v.push(b << 16); }
+    while v.len() < n { v.push(rng.next() as u32); }
+    v
+}
+fn f64_patterns(rng: &mut Rng, n: usize) -> Vec<u64> {
+    let mut v = vec![];
+    for e in [0u64, 1, 873, 874, 875, 896, 897, 1022, 1023, 1024, 1150, 1151, 2046, 2047] {
+        for m in [0u64, 1, 1 << 28, (1 << 28) + 1, 1 << 29, (1 << 29) - 1, (1u64 << 52) - 1, (1u64 << 52) - (1 << 29), (1u64 << 52) - (1 << 28), 1u64 << 51] {
+            for s in [0u64, 1] { v.push((s << 63) | (e << 52) | m); }
+        }
+    }
+    for d in ["2.71", "0.1", "1e-45", "3.4028235e38", "3.4028236e38", "1.17549435e-38", "16777217", "0.3", "1e39", "-2.71"] {
+        v.push(d.parse::<f64>().unwrap().to_bits());
+    }
+    while v.len() < n { v.push(rng.next()); }
+    v
+}
+fn m_nan64(b: u64) -> bool { (b & 0x7fff_ffff_ffff_ffff) > 0x7ff0_0000_0000_0000 }
+fn m_nan32(b: u32) -> bool { (b & 0x7fff_ffff) > 0x7f80_0000 }
+
+fn float_hypotheses(out: &mut impl Write, st: &mut Stats, rng: &mut Rng, n: usize) -> Value {
+    let mut bad: Vec<Value> = vec![];
+    let mut checked = 0u64;
+    let xs = f32_patterns(rng, n);
+    for (i, &x) in xs.iter().enumerate() {
+        checked += 1;
+        let f = f32::from_bits(x);
+        if m_nan32(x) != f.is_nan() { bad.push(json!({"h": "nan32", "x": x})); }
+        if f.is_nan() { continue; }
+        let y = widen(x);
+        if narrow(y) != x { bad.push(json!({"h": "narrow_widen", "x": x})); }
+        if !is_rb(y) { bad.push(json!({"h": "is_rb_widen", "x": x})); }
+        if f64::from_bits(y).is_nan() { bad.push(json!({"h": "widen_not_nan", "x": x})); }
+        // what the stored form really is: F32 written, schema-less read gives F64(widen x)
+        if i % 64 == 0 {
+            let wr = write_read(&FieldType::F32, &FieldValue::F32(f));
+            let raw_ok = matches!(&wr.raw, Some(FieldValue::F64(r)) if r.to_bits() == y);
+            let read_ok = matches!(&wr.read, Some(FieldValue::F32(r)) if r.to_bits() == x);
+            if !(raw_ok && read_ok) { bad.push(json!({"h": "f32_store", "x": x, "raw": format!("{:?}", wr.raw), "read": format!("{:?}", wr.read)})); }
+        }
+    }
+    let ys = f64_patterns(rng, n);
+    for (i, &y) in ys.iter().enumerate() {
+        checked += 1;
+        let f = f64::from_bits(y);
+        if m_nan64(y) != f.is_nan() { bad.push(json!({"h": "nan64", "y": y})); }
+        if is_rb(y) {
+            if f.is_nan() { bad.push(json!({"h": "is_rb_nan", "y": y})); }
+            if f32::from_bits(narrow(y)).is_nan() { bad.push(json!({"h": "narrow_rb_not_nan", "y": y})); }
+        }
+        if i % 256 == 0 && !f.is_nan() {
+            // model rows for the bit-level predicates
+            model_row(out, "fl", tup(vec![json!(y), json!(narrow(y))]), tup(vec![json!(f.is_nan()), json!(f.is_finite()), json!(f32::from_bits(narrow(y)).is_nan())]));
+        }
+    }
+    for &y in &[f64::NAN.to_bits(), 0xfff8_0000_0000_0001u64, 0x7ff0_0000_0000_0001] {
+        model_row(out, "fl", tup(vec![json!(y), json!(narrow(y))]), tup(vec![json!(true), json!(false), json!(f32::from_bits(narrow(y)).is_nan())]));
+    }
+    st.evaluations += checked;
+    for b in bad.iter().take(10) {
+        st.failures.push(json!({"class": "ieee-hypothesis", "what": format!("IEEE premise {} fails against Rust's casts", b["h"]), "detail": b}));
+    }
+    json!({"patterns": checked, "violations": bad.len()})
+}
+
+// ------------------------------------------------------------------ schema upgrade chains
+#[derive(Clone)]
+struct Decl { name: String, t: FieldType, unique: bool }
+
+fn build_schema(decls: &[Decl], version: u64) -> Schema {
+    let mut b = Schema::builder();
+    b.with_version(version);
+    for d in decls {
+        let mut e = FieldEntry::new(d.name.clone(), d.t.clone()).unwrap();
+        if d.unique { e = e.with_unique(); }
+        b.add_field(e).unwrap();
+    }
+    b.build().unwrap()
+}
+fn schema_term(s: &Schema) -> Value {
+    tup(vec![
+        Value::Array(s.iter().map(|e| tup(vec![json!(e.name()), ft_term(e.r#type()), json!(e.unique()), json!(e.idx())])).collect()),
+        json!(s.version()), json!(s.allocated_idx_end()),
+    ])
+}
+
+fn upgrade_chains(out: &mut impl Write, st: &mut Stats, rng: &mut Rng, chains: usize, model_every: usize) {
+    let names = ["a", "b", "c", "d", "e", "g"];
+    for c in 0..chains {
+        let mut decls: Vec<Decl> = vec![];
+        for n in names.iter().take(rng.range(1, 4) as usize) {
+            let t = gen_type(rng, 2);
+            decls.push(Decl { name: n.to_string(), t, unique: rng.chance(1, 8) });
+        }
+        let mut cur = build_schema(&decls, 1);
+        // name -> every idx it ever had; retired = (idx, name) no longer declared
+        let mut ever: BTreeMap<usize, String> = cur.iter().map(|e| (e.idx(), e.name().to_string())).collect();
+        // a document written under the first schema
+        let mut docs: Vec<(u64, BTreeMap<String, FieldValue>, Vec<u8>)> = vec![];
+        let write_doc = |schema: &Schema, rng: &mut Rng, ver: u64, docs: &mut Vec<(u64, BTreeMap<String, FieldValue>, Vec<u8>)>| {
+            let s = Arc::new(schema.clone());
+            let mut d = Document::new(s.clone());
+            d.set_id(7);
+            let mut vals = BTreeMap::new();
+            for e in s.iter() {
+                if e.name() == "_id" { continue; }
+                let v = gen_value(rng, e.r#type());
+                if v == FieldValue::Null && rng.chance(1, 2) { continue; }
+                if d.set_field(e.name(), v.clone()).is_ok() { vals.insert(e.name().to_string(), v); }
+            }
+            if let Ok(b) = cbor2::to_vec(&d) { docs.push((ver, vals, b)); }
+        };
+        write_doc(&cur, rng, 1, &mut docs);
+        let steps = rng.range(2, 6) as u64;
+        for ver in 2..(2 + steps) {
+            let mut nd = decls.clone();
+            let mut illegal = None;
+            match rng.below(10) {
+                0..=2 => { // add optional
+                    let free: Vec<&&str> = names.iter().filter(|n| !nd.iter().any(|d| d.name == **n)).collect();
+                    if let Some(n) = free.first() { nd.push(Decl { name: n.to_string(), t: FieldType::Option(Box::new(gen_type(rng, 2))), unique: false }); }
+                }
+                3..=5 => { if !nd.is_empty() { let i = rng.below(nd.len() as u64) as usize; nd.remove(i); } }
+                6 => { // add required: must be refused
+                    let free: Vec<&&str> = names.iter().filter(|n| !nd.iter().any(|d| d.name == **n)).collect();
+                    if let Some(n) = free.first() {
+                        let t = loop { let t = gen_type(rng, 1); if !t.allows_null() { break t; } };
+                        nd.push(Decl { name: n.to_string(), t, unique: false }); illegal = Some("new required field");
+                    }
+                }
+                7 => { // change a type incompatibly
+                    if !nd.is_empty() {
+                        let i = rng.below(nd.len() as u64) as usize;
+                        let t = gen_type(rng, 2);
+                        if !t.is_compatible_upgrade_of(&nd[i].t) { nd[i].t = t; illegal = Some("incompatible type change"); }
+                    }
+                }
+                8 => { // nested struct gains an optional key / loses a key
+                    for d in nd.iter_mut() {
+                        if let FieldType::Map(m) = &mut d.t {
+                            if !m.is_empty() && as_wildcard_map(m).is_none() {
+                                if rng.chance(1, 2) && m.len() > 1 { let k = m.keys().next().unwrap().clone(); m.remove(&k); }
+                                else { m.insert(FieldKey::Text("added".into()), FieldType::Option(Box::new(FieldType::Text))); }
+                                if as_wildcard_map(m).is_some() { m.insert(FieldKey::Text("added2".into()), FieldType::Option(Box::new(FieldType::Text))); }
+                                break;
+                            }
+                        }
+                    }
+                }
+                _ => {} // version bump only
+            }
+            let mut new = build_schema(&nd, ver);
+            let old = cur.clone();
+            let fresh = new.clone();
+            let res = new.upgrade_with(&old);
+            st.evaluations += 1;
+            st.bump(if res.is_ok() { "upgrade_accepted" } else { "upgrade_refused" });
+            if c % model_every == 0 {
+                model_row(out, "up", tup(vec![schema_term(&fresh), schema_term(&old)]), opt_term(res.as_ref().ok().map(|_| schema_term(&new))));
+            }
+            if let Some(why) = illegal {
+                if res.is_ok() { st.failures.push(json!({"class": "illegal-upgrade-accepted", "what": format!("upgrade_with accepts: {why}"), "old": format!("{old:?}"), "new": format!("{fresh:?}")})); }
+                continue;
+            }
+            if res.is_err() {
+                st.failures.push(json!({"class": "legal-upgrade-refused", "what": format!("upgrade_with refuses a permitted upgrade: {:?}", res), "old": format!("{old:?}"), "new": format!("{fresh:?}")}));
+                continue;
+            }
+            // ---- direct oracle: indexes
+            for e in new.iter() {
+                match ever.get(&e.idx()) {
+                    Some(n) if n != e.name() => st.failures.push(json!({"class": "retired-index-reused", "what": format!("index {} of field {n:?} reused for {:?}", e.idx(), e.name()), "old": format!("{old:?}"), "new": format!("{new:?}")})),
+                    Some(_) => {
+                        // same name: must be the surviving field, not a re-added one
+                        if old.get_field(e.name()).map(|o| o.idx()) != Some(e.idx()) {
+                            st.failures.push(json!({"class": "retired-index-reused", "what": format!("re-added field {:?} got its retired index {}", e.name(), e.idx()), "old": format!("{old:?}"), "new": format!("{new:?}")}));
+                        }
+                    }
+                    None => { ever.insert(e.idx(), e.name().to_string()); }
+                }
+            }
+            // ---- direct oracle: every document written under an earlier version still reads, surviving fields unchanged
+            let s_new = Arc::new(new.clone());
+            for (wver, vals, bytes) in &docs {
+                st.evaluations += 1;
+                let owned: DocumentOwned = cbor2::from_reader(&bytes[..]).unwrap();
+                if c % model_every == 0 {
+                    let fields: Vec<Value> = owned.fields.iter().map(|(i, v)| tup(vec![json!(i), fv_term(v)])).collect();
+                    let all: Vec<&FieldValue> = owned.fields.values().collect();
+                    let r = Document::try_from_doc(s_new.clone(), owned.clone());
+                    let obs = opt_term(r.as_ref().ok().map(|d| Value::Array(d.fields().iter().map(|(i, v)| tup(vec![json!(i), fv_term(v)])).collect())));
+                    let mut all2 = all.clone();
+                    let rd = r.as_ref().ok().map(|d| d.fields().clone());
+                    if let Some(rd) = &rd { all2.extend(rd.values()); }
+                    model_row(out, "doc", tup(vec![schema_term(&new), Value::Array(fields), float_table(&all2)]), obs);
+                }
+                match Document::try_from_doc(s_new.clone(), owned) {
+                    Err(e) => st.failures.push(json!({"class": "old-document-unreadable", "what": format!("document written under version {wver} unreadable under version {ver}: {e}"), "schema": format!("{new:?}"), "written": format!("{vals:?}")})),
+                    Ok(d) => {
+                        for (name, v) in vals {
+                            // a field survives while its name stays declared continuously; re-added names start empty
+                            let survives = new.get_field(name).is_some() && ever.iter().filter(|(_, n)| *n == name).count() == 1;
+                            if !survives { continue; }
+                            let got = d.get_field(name);
+                            let mut expect = v.clone();
+                            new.get_field(name).unwrap().r#type().prune_undeclared(&mut expect);
+                            if !got.map(|g| same(g, &expect)).unwrap_or(false) {
+                                st.failures.push(json!({"class": "surviving-field-changed", "what": format!("field {name:?} written under version {wver} changed under version {ver}"), "written": format!("{v:?}"), "read": format!("{got:?}")}));
+                            }
+                        }
+                    }
+                }
+            }
+            decls = nd;
+            cur = new;
+            write_doc(&cur, rng, ver, &mut docs);
+        }
+    }
+}
+
+fn probe() {
+    let z = bf16::from_f32(1.0);
+    let show = |t: FieldType, v: FieldValue| {
+        let wr = write_read(&t, &v);
+        let vs = format!("{v:?}");
+        println!("{t:?} <- {}: stored {:?} raw {:?} read {:?} err {}", &vs[..vs.len().min(120)],
+                 wr.stored.map(|x| format!("{x:?}").chars().take(120).collect::<String>()), wr.raw.map(|x| format!("{x:?}").chars().take(120).collect::<String>()),
+                 wr.read.map(|x| format!("{x:?}").chars().take(120).collect::<String>()), wr.read_err);
+    };
+    show(FieldType::Array(vec![]), FieldValue::Array(vec![FieldValue::Vector(vec![z; 5000])]));
+    show(FieldType::Array(vec![]), FieldValue::Array(vec![FieldValue::I64(5), FieldValue::F32(1.5)]));
+    show(FieldType::Json, FieldValue::Bytes(vec![1, 2]));
+    show(FieldType::Json, FieldValue::Map(BTreeMap::from([(FieldKey::I64(5), FieldValue::U64(1))])));
+    show(FieldType::Json, FieldValue::Map(BTreeMap::from([(FieldKey::Bytes(b"ab".to_vec()), FieldValue::U64(1))])));
+    show(FieldType::Json, FieldValue::F64(f64::INFINITY));
+    show(FieldType::Json, FieldValue::Vector(vec![z; 3]));
+    show(FieldType::Json, FieldValue::Json(Json::Null));
+    show(FieldType::Option(Box::new(FieldType::Json)), FieldValue::Json(Json::Null));
+    show(FieldType::Json, FieldValue::Null);
+    show(FieldType::Map(BTreeMap::new()), FieldValue::Map(BTreeMap::from([(FieldKey::I64(5), FieldValue::Vector(vec![z; 5000]))])));
+    show(FieldType::Array(vec![]), nest_array(FieldValue::Vector(vec![z; 2]), 64));
+    show(FieldType::Json, FieldValue::Json(serde_json::json!({"a":[1,-2,1.5,-0.0,18446744073709551615u64,null,"b64:AQID"]})));
+    show(FieldType::F32, FieldValue::F32(-0.0));
+    show(FieldType::F32, FieldValue::F64(2.71));
+}
+
+fn main() {
+    let args: Vec<String> = std::env::args().collect();
+    if args.get(1).map(|s| s.as_str()) == Some("probe") { probe(); return; }
+    let outp = arg_value(&args, "--out").expect("--out");
+    let num = |f: &str, d: usize| arg_value(&args, f).and_then(|s| s.parse().ok()).unwrap_or(d);
+    let mut out = std::io::BufWriter::new(std::fs::File::create(&outp).unwrap());
+    let mut rng = Rng::from_env();
+    let mut st = Stats::default();
+    let r = catch_unwind(AssertUnwindSafe(|| {
+        budget_battery(&mut out, &mut st);
+        stream_pairs(&mut out, &mut st, &mut rng, num("--valid", 3000), num("--mutations", 3000), num("--wild", 1000), num("--model-every", 4));
+        let fl = float_hypotheses(&mut out, &mut st, &mut rng, num("--floats", 100000));
+        upgrade_chains(&mut out, &mut st, &mut rng, num("--chains", 300), num("--chain-model-every", 3));
+        let bt = battery::run(&mut st_failures(&mut st));
+        (fl, bt)
+    }));
+    let (fl, bt) = match r {
+        Ok(x) => x,
+        Err(_) => { st.failures.push(json!({"class": "panic", "what": "the implementation panicked"})); (json!(null), json!(null)) }
+    };
+    let summary = json!({"kind": "summary", "evaluations": st.evaluations, "oracle_failures": st.failures.len(), "failures": st.failures,
+                         "distribution": st.dist, "float_hypotheses": fl, "derive_battery": bt});
+    writeln!(out, "{summary}").unwrap();
+}
+
+fn st_failures(st: &mut Stats) -> &mut Vec<Value> { &mut st.failures }
